@@ -949,3 +949,22 @@ pub(crate) async fn prepare_request(
     };
     Ok((QueryEnv::new(env), validation_result.cache_control))
 }
+
+#[cfg(feature = "verif-hooks")]
+#[doc(hidden)]
+#[allow(missing_docs)]
+pub mod verif_hooks {
+    use super::*;
+
+    pub fn check_max_directives(doc: &ExecutableDocument, max_directives: usize) -> ServerResult<()> {
+        super::check_max_directives(doc, max_directives)
+    }
+
+    pub fn check_recursive_depth(doc: &ExecutableDocument, max_depth: usize) -> ServerResult<()> {
+        super::check_recursive_depth(doc, max_depth)
+    }
+
+    pub fn remove_skipped_selection(selection_set: &mut SelectionSet, variables: &Variables) {
+        super::remove_skipped_selection(selection_set, variables)
+    }
+}
